@@ -13,7 +13,7 @@ func runC14(c *Ctx) {
 
 	// (a) determinism of every map traversal in package align
 	c.checkMapRanges("map-order", []string{"align"}, nil)
-	L.Floor("map-order", 6, "range-over-map sites of package align confirmed by hand (MaxCharStats, Entropy, Pssm, rarefy, profile, ...)")
+	L.Floor("map-order", 3, "range-over-map sites of package align confirmed by hand (MaxCharStats, Entropy, Pssm, rarefy, profile, ...) (floor = half of the instances on the pinned tree: a clean-up may merge instances, a rule that sees nothing must still fail)")
 
 	// (b) site / row guards
 	site := []string{"0 <= site", "site <= L - 1"}
@@ -44,8 +44,8 @@ func runC14(c *Ctx) {
 			return "", false
 		})
 	}
-	L.Floor("site-domain", 9, "Entropy, CharStatsSite, SiteConservation: 2 bounds each, both directions")
-	L.Floor("row-index-safe", 5, "Entropy, CharStatsSite row reads; three by-index accessors used by CharStatsSeq")
+	L.Floor("site-domain", 4, "Entropy, CharStatsSite, SiteConservation: 2 bounds each, both directions (floor = half of the instances on the pinned tree: a clean-up may merge instances, a rule that sees nothing must still fail)")
+	L.Floor("row-index-safe", 2, "Entropy, CharStatsSite row reads; three by-index accessors used by CharStatsSeq (floor = half of the instances on the pinned tree: a clean-up may merge instances, a rule that sees nothing must still fail)")
 
 	// (c) alphabet ↔ wildcard
 	c.checkAlphabetConsts("alphabet-wildcard", c.helperDeclsOf("align",
@@ -68,7 +68,7 @@ func runC14(c *Ctx) {
 		purityTarget{"align", "", "NewCountProfileFromAlignment", []int{0}},
 	)
 	c.purityObligations("input-unmodified", pure)
-	L.Floor("input-unmodified", 18, "statistics listed in the property")
+	L.Floor("input-unmodified", 9, "statistics listed in the property (floor = half of the instances on the pinned tree: a clean-up may merge instances, a rule that sees nothing must still fail)")
 	// (e) result lists own their buffers
 	bscope := c.P.SrcFuncs("align")
 	if c.Thorough() {
@@ -76,7 +76,7 @@ func runC14(c *Ctx) {
 	}
 	n := c.checkBufferReuse("published-buffer-reuse", bscope)
 	L.Note("published-buffer-reuse: %d publication sites examined in package align", n)
-	L.Floor("published-buffer-reuse", 20, "functions of package align that store slices into structs/containers")
+	L.Floor("published-buffer-reuse", 10, "functions of package align that store slices into structs/containers (floor = half of the instances on the pinned tree: a clean-up may merge instances, a rule that sees nothing must still fail)")
 	c.checkLenOfEmpty("len-of-empty", c.P.SrcFuncs("align"))
 	L.Assumes("alignment shape invariant: every row reached through the receiver has the cached length")
 	L.Trusts("effect table for standard-library callees (sa/rules/e3_effects.go)")
